@@ -142,17 +142,23 @@ def d_line(i, exp, src, data, trl, hd):
 
 # ------------------------------------------------------------------ TLC
 
-def tlc_rows(cfg, env, what, allow_violation=False, timeout=1700, heap="10g"):
+def tlc_rows(cfg, env, what, allow_violation=False, timeout=1700, heap="10g", on_row=None):
+    """Run TLC, stream the emitted rows (to on_row if given, else collected). Returns (result, rows)."""
     of = os.path.join(vlib.scratch_dir("c12t-"), "tlc.out")
     r = run_tlc("Reduce", cfg, workers=vlib.NCPU, env=env, timeout=timeout, heap=heap, out_file=of, collect_out=False)
-    text, r.out = r.out, ""
+    r.out = ""
     rows, rest = [], []
-    for line in text.splitlines():
-        if '"OUT' in line:
-            for pay in vlib._OUT_RE.findall(line):
-                rows.append(json.loads(vlib._unescape_tla(pay)))
-        else:
-            rest.append(line)
+    with open(of, errors="replace") as f:
+        for line in f:
+            if '"OUT' in line:
+                for pay in vlib._OUT_RE.findall(line):
+                    row = json.loads(vlib._unescape_tla(pay))
+                    if on_row:
+                        on_row(row)
+                    else:
+                        rows.append(row)
+            elif len(rest) < 5000:
+                rest.append(line.rstrip("\n"))
     r.out = "\n".join(rest)
     try:
         os.unlink(of)
@@ -212,24 +218,10 @@ def model_and_replay(cx, win, kind, cfgs, env, exe, exe_as, mutate=None):
     """kind: 'enum' | 'streams'.  Returns number of replayed cases."""
     ck = cx.ck
     cfg_fx, cfg_aw = cfgs
-    r, rows = tlc_rows(cfg_fx, env, "%s %s" % (cfg_fx, env), allow_violation=True)
-    if r.rc == 12 or r.violation:
-        raise MachineryError("model-level check failed: the decoder-shaped machine with the proposed checks violates %s (%s)"
-                             % (r.violation, cfg_fx))
-    cx.tlc(r)
-    r2, rows_aw = tlc_rows(cfg_aw, env, "%s %s" % (cfg_aw, env))
-    cx.tlc(r2)
     labels, cls = {}, {}
-    for row in rows_aw:
-        lab = label_of(row)
-        labels[" ".join(map(str, row[0]))] = lab
-        cls[lab] = cls.get(lab, 0) + 1
-    ck.add("model_as_written_flagged_%s_%s" % (win, kind), len(rows_aw))
-    for k, v in cls.items():
-        ck.add("model_as_written_class_" + k, v)
     lines, info, disc = [], [], 0
     seen = set()
-
+    naw = [0]
     def push(row, origin):
         nonlocal disc
         src, res, bad, asrt, data, trl, aacc, awhy, mk, hd = row
@@ -256,11 +248,23 @@ def model_and_replay(cx, win, kind, cfgs, env, exe, exe_as, mutate=None):
         lines.append(d_line(len(lines), exp, src, data if exp else [], trl if exp else [], None if hd == 0 else hd))
         info.append((key, mk, awhy, res))
 
-    for row in rows:
-        push(row, "fixed")
-    nfixed = len(lines)
-    for row in rows_aw:
+    def on_aw(row):
+        lab = label_of(row)
+        labels[" ".join(map(str, row[0]))] = lab
+        cls[lab] = cls.get(lab, 0) + 1
+        naw[0] += 1
         push(row, "aw")
+
+    r, _ = tlc_rows(cfg_fx, env, "%s %s" % (cfg_fx, env), allow_violation=True, on_row=lambda row: push(row, "fixed"))
+    if r.rc == 12 or r.violation:
+        raise MachineryError("model-level check failed: the decoder-shaped machine with the proposed checks violates %s (%s)"
+                             % (r.violation, cfg_fx))
+    cx.tlc(r)
+    r2, _ = tlc_rows(cfg_aw, env, "%s %s" % (cfg_aw, env), on_row=on_aw)
+    cx.tlc(r2)
+    ck.add("model_as_written_flagged_%s_%s" % (win, kind), naw[0])
+    for k, v in cls.items():
+        ck.add("model_as_written_class_" + k, v)
     ck.add("discarded_undefined", disc)
     if not lines:
         raise MachineryError("no cases emitted by %s" % cfg_fx)
@@ -311,7 +315,7 @@ def model_and_replay(cx, win, kind, cfgs, env, exe, exe_as, mutate=None):
                          "assert-enabled build, window %s, stream [%s]: %s" % (win, info[i][0], msg[:300]),
                          {"kind": "D", "window": win, "asserts": True, "line": lines[i]})
     vlib.log("  %s/%s: fixed %d distinct states, as-written flagged %d; %d streams replayed (%d expected accept), %d mismatching"
-             % (win, kind, r.distinct, len(rows_aw), len(lines), nacc, len(bad_ids)))
+             % (win, kind, r.distinct, naw[0], len(lines), nacc, len(bad_ids)))
     return len(lines)
 
 
